@@ -7,6 +7,7 @@ import (
 	"fmt"
 	"strconv"
 	"strings"
+	"unicode"
 
 	"pgregory.net/rapid"
 
@@ -238,7 +239,7 @@ func Resolve(s Sel, v val.V) (val.V, State) {
 // ---------- generators ----------
 
 var fieldNames = []string{"a", "b", "c", "aa", "x", "foo", "é", "A", "_u", "key-1"}
-var quotedNames = []string{"a", "b", "with space", "d.e", "é", "", "key-1", "x", "0", "[]", "a?b"}
+var quotedNames = []string{"a", "b", "with space", "d.e", "é", "", "key-1", "x", "0", "[]", "a?b", "<k&>", "k\u2028", " k", "k\t", "k\x00", "~"}
 
 // GenCfg biases segment generation.
 type GenCfg struct {
@@ -360,7 +361,7 @@ func needsQuote(name string) bool {
 	}
 	for i, r := range name {
 		switch {
-		case r >= 'a' && r <= 'z', r >= 'A' && r <= 'Z', r == '_', r > 127:
+		case r >= 'a' && r <= 'z', r >= 'A' && r <= 'Z', r == '_', r > 127 && unicode.IsLetter(r):
 		case i > 0 && (r >= '0' && r <= '9' || r == '$' || r == '-'):
 		default:
 			return true
